@@ -8,6 +8,12 @@ families
                                 low-cost sample, every such run is removed, own output as mask -> {}
   solve                         NM / Powell / DE1 / DE2 runs with Or(CollapseAt|CollapseAs, VTR) on objectives with flat /
                                 zero-target / tied directions; Collapse is observed through an instance-level hook
+  solve (ties)                  the same solvers on separable quadratics in 4..6 parameters whose optimum holds clusters of
+                                values spaced 0.8*tolerance apart in arbitrary index order (equal / chained / non-transitive
+                                ties: x_c between x_a and x_b, so a single CollapseAs event reports pairs that share a member in
+                                the first, the second or both positions, and converging coordinates join groups collapsed
+                                earlier); after the collapse every evaluated point and the reported solution satisfy every
+                                reported pair exactly
 """
 import math
 import random
@@ -333,6 +339,14 @@ TERMS = {'flat': [('at', None)], 'zero': [('at', 0.0), ('at', 'list0')], 'tied':
          'rosen': [('as', False), ('at', 1.0), ('at', 'list1'), ('both', 1.0)]}
 
 
+def objective(sc):
+    """the user's cost of a scenario; 'quad' = separable quadratic with the optimum sc['opt'] and curvatures sc['w']"""
+    if sc['obj'] != 'quad':
+        return OBJ[sc['obj']]
+    opt, w = [float(v) for v in sc['opt']], [float(v) for v in sc['w']]
+    return lambda x: sum(wi * (xi - oi) ** 2 for xi, oi, wi in zip(x, opt, w))
+
+
 class Timeout(Exception):
     pass
 
@@ -345,10 +359,10 @@ def run_solve(sc):
     """returns (error or None, log, calls, final, termination state)"""
     import mystic.termination as mt
     seed_all(sc['seed'])
-    nd = 3
+    nd = len(sc['x0'])
     s = make_solver(sc['solver'], nd)
     if sc['solver'].startswith('DE'):
-        s.SetRandomInitialPoints([-2.0] * nd, [3.0] * nd)
+        s.SetRandomInitialPoints(*sc.get('box', ([-2.0] * nd, [3.0] * nd)))
     else:
         s.SetInitialPoints(sc['x0'])
     s.SetEvaluationLimits(generations=sc['maxgen'])
@@ -359,8 +373,10 @@ def run_solve(sc):
         conds.append(mt.CollapseAt(tgt, sc['tol'], sc['g']))
     if what in ('as', 'both'):
         conds.append(mt.CollapseAs(False, sc['tol'], sc['g']))
+    if sc.get('cog'):                    # tied optima have a non-zero cost: a flat-cost stop lets the run end by itself
+        conds.append(mt.ChangeOverGeneration(1e-12, sc['cog']))
     term = mt.Or(*(conds + [mt.VTR(1e-14)]))
-    rec = Recorder(OBJ[sc['obj']])
+    rec = Recorder(objective(sc))
     log = []
     orig = s.Collapse
 
@@ -392,16 +408,45 @@ def _mask_of(state, prefix):
     return None, {}
 
 
+def _closure(seed, edges):
+    comp, grew = set(seed), True
+    while grew:
+        grew = False
+        for i, j in edges:
+            if (i in comp) != (j in comp):
+                comp |= {i, j}
+                grew = True
+    return comp
+
+
+def event_shape(pairs):
+    """what a single reported set of pairs looks like: members shared in the first / second / mixed position, and
+    whether the set is transitively closed (a non-transitive tie reports (a,c),(b,c) without (a,b))"""
+    pairs = sorted(pairs)
+    out = set()
+    for (a, b), (c, d) in itertools.combinations(pairs, 2):
+        if a == c:
+            out.add('first')
+        if b == d:
+            out.add('second')
+        if b == c or a == d:
+            out.add('mixed')
+    have = {frozenset(p) for p in pairs}
+    for p in pairs:
+        comp = _closure(p, pairs)
+        if any(frozenset(q) not in have for q in itertools.combinations(sorted(comp), 2)):
+            out.add('open')
+    return out
+
+
 def check_solve(res, sc):
     key = 'C11/bounded/solve/'
     err, log, calls, final, endstate = run_solve(sc)
     applied = [e for e in log if e[3]]
-    res.case('%s%s|%s|%s|g%d|%d' % (key, sc['solver'], sc['obj'], sc['term'], sc['g'], min(len(applied), 2)),
-             nontrivial=bool(applied), sample=sc)
     lt = '#list-target' if isinstance(sc['term'][1], str) else ''
-    if err:
-        res.violation(key + 'returns' + lt, 'Solve %s after %d collapses, %d evaluations' % (err, len(applied), len(calls)), sc)
     fixed, tied, seen = [], [], {'CollapseAt': set(), 'CollapseAs': set()}
+    src, shapes = {}, set()              # (evaluation count, indices) -> the conditions that reported that relation
+    pending = []
     for n0, best, st0, coll, st1 in applied:
         for k, val in coll.items():
             kind = k.split(' ')[0]
@@ -409,39 +454,71 @@ def check_solve(res, sc):
                 continue
             items = {int(i) for i in val} if kind == 'CollapseAt' else {tuple(sorted(int(v) for v in p)) for p in val}
             if items & seen[kind]:
-                res.violation(key + 'reported-once', '%s reported %r again (already applied %r)' % (kind, sorted(items & seen[kind]), sorted(seen[kind])), sc)
+                pending.append((key + 'reported-once', '%s reported %r again (already applied %r)' % (kind, sorted(items & seen[kind]), sorted(seen[kind]))))
             seen[kind] |= items
             old = st0[k].get('mask') or set()
             _, new = _mask_of(st1, kind)
             norm = (lambda m: {int(i) for i in m}) if kind == 'CollapseAt' else (lambda m: {tuple(sorted(int(v) for v in p)) for p in m})
             if norm(new.get('mask') or set()) != norm(old) | items:
-                res.violation(key + 'mask-grows', '%s mask %r -> %r after applying %r' % (kind, old, new.get('mask'), sorted(items)), sc)
+                pending.append((key + 'mask-grows', '%s mask %r -> %r after applying %r' % (kind, old, new.get('mask'), sorted(items))))
             if kind == 'CollapseAt':
                 t = st0[k].get('target')
                 fixed += [(n0, i, best[i] if t is None else float(t[i] if isinstance(t, list) else t)) for i in sorted(items)]
+                for i in items:
+                    src.setdefault((n0, (i,)), set()).add(k)
             else:
                 tied += [(n0, i, j) for i, j in sorted(items)]
-    rel = None
+                for p in items:
+                    src.setdefault((n0, p), set()).add(k)
+                shapes |= event_shape(items)
+    rel = [(m0, (i,)) for m0, i, _ in fixed] + [(m0, (i, j)) for m0, i, j in tied]
+    joins = set()
 
     def later(n0, idx):
-        """sub-case: parameters already constrained (directly or through applied ties) by an earlier / simultaneous collapse"""
-        comp, grew = set(idx), True
-        while grew:
-            grew = False
-            for m0, i, j in tied:
-                if m0 <= n0 and (i in comp) != (j in comp):
-                    comp |= {i, j}
-                    grew = True
-        if any(m0 < n0 and set(ix) & comp for m0, ix in rel):
+        """sub-case of a relation applied at evaluation count n0: are its parameters already constrained (directly or
+        through applied ties) by an earlier collapse, or by another condition collapsing at the same moment?  Relations
+        reported together by ONE condition are one collapse and are no sub-case."""
+        idx = tuple(idx)
+        comp = _closure(idx, [(i, j) for m0, i, j in tied if m0 <= n0])
+        early = [ix for m0, ix in rel if m0 < n0 and set(ix) & comp]
+        other = [ix for m0, ix in rel if m0 == n0 and ix != idx and set(ix) & comp and src[(m0, ix)] != src[(n0, idx)]]
+        if early:
+            # whole groups joined: everything that constrained these parameters before is a tie, and the collapse ties
+            # every member of one earlier group to every member of the other (e.g. a new parameter c joining the
+            # collapsed pair (a,b) through (a,c) and (b,c)): earlier and new relations then ask for the same thing
+            old = [(i, j) for m0, i, j in tied if m0 < n0]
+            now = {frozenset((i, j)) for m0, i, j in tied if m0 == n0 and src[(m0, (i, j))] == src[(n0, idx)]}
+            whole = len(idx) == 2 and not other and all(len(ix) == 2 for ix in early)
+            for p in (now if whole else ()):
+                a, b = sorted(p)
+                if a in comp:
+                    ga, gb = _closure((a,), old), _closure((b,), old)
+                    whole = whole and (b in ga or all(frozenset((u, v)) in now for u in ga for v in gb))
+            if whole:
+                joins.add(n0)
+                return '#whole-group-join'
             return '#after-earlier-collapse'
-        return '#simultaneous-collapses' if any(m0 == n0 and ix != tuple(idx) and set(ix) & comp for m0, ix in rel) else ''
-    rel = [(m0, (i,)) for m0, i, _ in fixed] + [(m0, (i, j)) for m0, i, j in tied]
+        return '#simultaneous-collapses' if other else ''
 
     def stale(n0, idx):
         """sub-case: the reported solution is a point evaluated before the collapse and never evaluated afterwards"""
         f = tuple(final)
         old = any(x == f for x, _ in calls[:n0]) and not any(x == f for x, _ in calls[n0:])
         return '#stale-best' if old else later(n0, idx)
+    subs = {later(n0, ix) for n0, ix in rel}
+    if sc['obj'] == 'quad':
+        what = '%d|%s|%s|%s' % (len(sc['x0']), sc['start'], '+'.join(sorted(shapes)), '+'.join(sorted(subs)))
+    else:
+        what = '%s|%s' % (sc['obj'], sc['term'])
+    res.case('%s%s|%s|g%d|%d' % (key, sc['solver'], what, sc['g'], min(len(applied), 2)), nontrivial=bool(applied), sample=sc)
+    for sh in shapes:
+        res.extra['solve_events_sharing_' + sh] = res.extra.get('solve_events_sharing_' + sh, 0) + 1
+    if joins:
+        res.extra['solve_whole_group_joins'] = res.extra.get('solve_whole_group_joins', 0) + len(joins)
+    if err:
+        res.violation(key + 'returns' + lt, 'Solve %s after %d collapses, %d evaluations' % (err, len(applied), len(calls)), sc)
+    for k, detail in pending:
+        res.violation(k, detail, sc)
     for n0, i, t in fixed:
         bad = [(q, x) for q, (x, _) in enumerate(calls[n0:], n0) if x[i] != t]
         if bad:
@@ -452,10 +529,11 @@ def check_solve(res, sc):
     for n0, i, j in tied:
         bad = [(q, x) for q, (x, _) in enumerate(calls[n0:], n0) if x[i] != x[j]]
         if bad:
-            res.violation(key + 'tied-equal' + later(n0, (i, j)), 'x[%d]==x[%d] from evaluation %d on, but evaluation %d was at %r '
-                          '(%d such)' % (i, j, n0, bad[0][0], bad[0][1], len(bad)), sc)
+            res.violation(key + 'tied-equal' + later(n0, (i, j)), 'x[%d]==x[%d] from evaluation %d on (collapse %r), but evaluation %d was at %r '
+                          '(%d such)' % (i, j, n0, sorted(ix for m0, ix in rel if m0 == n0), bad[0][0], bad[0][1], len(bad)), sc)
         if not err and final[i] != final[j]:
-            res.violation(key + 'final-tied' + stale(n0, (i, j)), 'x[%d]==x[%d] applied but the reported solution is %r' % (i, j, final), sc)
+            res.violation(key + 'final-tied' + stale(n0, (i, j)), 'x[%d]==x[%d] applied (collapse %r) but the reported solution is %r'
+                          % (i, j, sorted(ix for m0, ix in rel if m0 == n0), final), sc)
 
 
 def gen_solves(rng, n):
